@@ -249,13 +249,13 @@ def c18(tier, replay_file=None):
         kc.pop("RESERVED", None)
         kc.pop("MAX", None)
         kc.pop("CNT", None)
-        cpath_codes = os.path.join(wd, "codes.ndjson")
-        write_ndjson(cpath_codes, [{"name": n, "code": c} for n, c in sorted(kc.items(), key=lambda x: x[1])])
         # the tool spells the four kernel names that start with a digit with a leading K (KEY_102ND -> K102ND)
         for k in toolkeys:
             n = k["name"]
             if n not in kc and n[:1] == "K" and n[1:2].isdigit() and n[1:] in kc:
                 kc[n] = kc.pop(n[1:])
+        cpath_codes = os.path.join(wd, "codes.ndjson")
+        write_ndjson(cpath_codes, [{"name": n, "code": c} for n, c in sorted(kc.items(), key=lambda x: x[1])])
         missing = [k["name"] for k in toolkeys if k["name"] not in kc]
         if missing:
             res.notes.append("key names of the tool that the kernel header does not define (not judged): %s" % missing[:10])
